@@ -1,4 +1,5 @@
 import HranoModel.Lemmas.Template
+import HranoModel.Lemmas.StatsLayout
 import HranoModel.Props.C12
 import HranoModel.Lemmas.Leaf
 /-!
@@ -301,6 +302,22 @@ theorem value_rows_follow_source (es : Elements) :
     ∧ valueRows es = (es.map (fun e => Tmpl.sprintfA (Facts.quantityFormats.getD 1 []) [.q e.value, .s e.name])).flatten := by
   simp only [valueRows, Tmpl.row_q0, Tmpl.row_q1, and_self]
 
+/-- `stats` prints the seven `fmt.Fprintf` formats of `stats_reporter.go`, as the source has them now, over the file names, the
+    record counts, today, and the first / last heading date with its distance in days. -/
+theorem stats_layout_follows_source (o : Opts) (nDb nLog : Nat) (first last : Option Civil) :
+    App.statsOutput o nDb nLog first last =
+      Tmpl.sprintfA (Facts.statsFormats.getD 0 []) [.s o.dbFile]
+      ++ Tmpl.sprintfA (Facts.statsFormats.getD 1 []) [.i (Int.ofNat nDb)]
+      ++ [10]
+      ++ Tmpl.sprintfA (Facts.statsFormats.getD 2 []) [.s o.logFile]
+      ++ Tmpl.sprintfA (Facts.statsFormats.getD 3 []) [.i (Int.ofNat nLog)]
+      ++ Tmpl.sprintfA (Facts.statsFormats.getD 4 []) [.s (Date.format o.rc.dateLayout (Date.ofDays (o.now / Date.nsPerDay)))]
+      ++ Tmpl.sprintfA (Facts.statsFormats.getD 5 []) [.s (App.fmtDateOpt o.rc.dateLayout first), .i (App.daysAgo o.now first)]
+      ++ Tmpl.sprintfA (Facts.statsFormats.getD 6 []) [.s (App.fmtDateOpt o.rc.dateLayout last), .i (App.daysAgo o.now last)] := by
+  rw [Tmpl.row_s0, Tmpl.row_s1, Tmpl.row_s2, Tmpl.row_s3, Tmpl.row_s4, Tmpl.row_s5, Tmpl.row_s6]
+  unfold App.statsOutput
+  simp only [List.append_assoc]
+
 /-- every regenerated format of the period reporters, the balance reporters and `print` uses only modelled verbs, and number
     verbs exactly where the call passes a number -/
 theorem formats_well_typed :
@@ -314,9 +331,11 @@ theorem formats_well_typed :
     ∧ Tmpl.signature (Facts.printFormats.getD 0 []) = some [false]
     ∧ Tmpl.signature (Facts.printFormats.getD 1 []) = some [false, false]
     ∧ Tmpl.signature (Facts.printFormats.getD 2 []) = some [false]
-    ∧ Tmpl.signature (Facts.printFormats.getD 3 []) = some [false, true] := by
+    ∧ Tmpl.signature (Facts.printFormats.getD 3 []) = some [false, true]
+    ∧ Tmpl.wellFormed (Facts.statsFormats.getD 1 []) 1 = true ∧ Tmpl.wellFormed (Facts.statsFormats.getD 5 []) 2 = true
+    ∧ Tmpl.wellFormed (Facts.statsFormats.getD 6 []) 2 = true := by
   refine ⟨by decide +kernel, by decide +kernel, by decide +kernel, by decide +kernel, ?_, by decide +kernel, by decide +kernel,
-    by decide +kernel, by decide +kernel, by decide +kernel, by decide +kernel⟩
+    by decide +kernel, by decide +kernel, by decide +kernel, by decide +kernel, by decide +kernel, by decide +kernel, by decide +kernel⟩
   intro i h
   have : i = 0 ∨ i = 1 ∨ i = 2 ∨ i = 3 := by omega
   rcases this with rfl | rfl | rfl | rfl <;> decide +kernel
